@@ -428,6 +428,12 @@ def run(ctx):
         if o != exp and not (path.startswith("reader:16") and o.startswith("ERR")):
             ctx.fail("skip-wide-" + path.split(":")[0], "%s path on a document whose skipped container holds wide payloads returns %s, expected %s (bytes %s)" % (path, o[:120], exp, body.hex()), [pcases[k]], [o], exp)
 
+    # >>> a_c04 (wave 4): every Deserializer method x token kind x position x path, exact skipping at depth, size hints,
+    # the remaining public entry points (props/C04_shapes.py; audit/C04.md)
+    from props import C04_shapes
+    C04_shapes.run(ctx, nt, gen_cases)
+    # <<< a_c04
+
     # scalar level: extracted Serde.bin_scalar against the real on-demand path
     from props import descalar
     ctx.correspond("scalar-tokens", descalar.bin_cases(ctx, ctx.scale(150, 1500)), nontrivial=nt)
